@@ -482,7 +482,7 @@ Qed.
 
 Lemma truncate_spec p s : s <> [] ->
   truncate p s =
-  Some (if renorm p then renormalise s (fst (select p s)) else Some (fst (select p s)), snd (select p s)).
+  Some (if renorm p then renormalise s (fst (select p s)) else fst (select p s), snd (select p s)).
 Proof.
   intros Hne. unfold truncate. destruct s; [congruence|].
   now rewrite (surjective_pairing (select p (q :: s))).
@@ -498,25 +498,34 @@ Qed.
 Lemma renorm_scales p s : s <> [] -> renorm p = true ->
   let kept := fst (select p s) in
   ~ qsum kept == 0 ->
-  truncate p s = Some (Some (map (fun x => x * qsum s / qsum kept) kept), snd (select p s)).
+  truncate p s = Some (map (fun x => x * qsum s / qsum kept) kept, snd (select p s)).
 Proof.
   intros Hne Hr kept Hk. rewrite truncate_spec by auto. rewrite Hr. unfold renormalise.
   fold kept. destruct (Qeq_bool (qsum kept) 0) eqn:E; [apply Qeq_bool_iff in E; contradiction|].
   reflexivity.
 Qed.
 
-Lemma renorm_zero p s : s <> [] -> bond_ok (max_bond p) -> renorm p = true ->
-  qsum (fst (select p s)) == 0 -> truncate p s = Some (None, snd (select p s)).
+(* kept sum 0: nothing to rescale, the kept values are returned unchanged *)
+Lemma renorm_zero p s : s <> [] -> renorm p = true -> qsum (fst (select p s)) == 0 ->
+  truncate p s = Some (fst (select p s), snd (select p s)).
 Proof.
-  intros Hne Hb Hr Hk. rewrite truncate_spec by auto. rewrite Hr. unfold renormalise.
-  apply Qeq_bool_iff in Hk. rewrite Hk.
-  pose proof (select_length p s Hne Hb) as Hl.
-  destruct (fst (select p s)); [cbn [length] in Hl; lia|reflexivity].
+  intros Hne Hr Hk. rewrite truncate_spec by auto. rewrite Hr. unfold renormalise.
+  apply Qeq_bool_iff in Hk. now rewrite Hk.
 Qed.
 
 Lemma no_renorm p s : s <> [] -> renorm p = false ->
-  truncate p s = Some (Some (fst (select p s)), snd (select p s)).
+  truncate p s = Some (fst (select p s), snd (select p s)).
 Proof. intros Hne Hr. rewrite truncate_spec by auto. now rewrite Hr. Qed.
+
+(* whatever the flags, the result has as many values as the selection: renormalisation never
+   changes the length *)
+Lemma truncate_length p s : s <> [] ->
+  exists k d, truncate p s = Some (k, d) /\ length k = length (fst (select p s)) /\ d = snd (select p s).
+Proof.
+  intros Hne. rewrite truncate_spec by auto. eexists; eexists; split; [reflexivity|]. split; auto.
+  destruct (renorm p); auto. unfold renormalise.
+  destruct (Qeq_bool _ _); auto. apply map_length.
+Qed.
 
 (* the rescaled vector has the l1 weight of the whole spectrum *)
 Lemma renorm_preserves_sum s kept : ~ qsum kept == 0 ->
